@@ -530,9 +530,9 @@ pub fn sites(tier: Tier) -> Vec<Site> {
             b"^L".to_vec(), b"^J".to_vec(), b"^8".to_vec(), b"^".to_vec(), b"^^".to_vec(), b"^Ja".to_vec(), b"^E\xe9".to_vec(),
             vec![0x83, 0x5e], vec![b'^', b'J', 0x83, 0x5e], vec![0x5e, 0x83], vec![b'^', b'K', 0x94, 0xee],
             vec![b'^', b'J', 0xfa, 0x5e], vec![b'^', b'H', 0xa1, 0x5e], vec![b'^', b'S', 0x81, 0x5e, b'8'], b"a^C\xf8".to_vec(),
-            b"^L^G^C^E^T^B^J^S^K^H".to_vec(), vec![0xff], vec![0x80], b"^\x00".to_vec(),
+            b"^L^G^C^E^T^B^J^S^K^H".to_vec(), vec![0xff], vec![0x80], b"^\x00".to_vec(), b"a".to_vec(), vec![0xe9], vec![0x83, 0x41],
         ];
-        let prefixes: Vec<Vec<u8>> = vec![vec![], b"a".to_vec(), b"ab".to_vec(), vec![0xe9]];
+        let prefixes: Vec<Vec<u8>> = vec![vec![], b"a".to_vec(), b"ab".to_vec(), vec![0xe9], b"^E".to_vec(), b"^J".to_vec()];
         let mut targets: Vec<(String, bool, Vec<u8>, usize, usize)> = vec![];
         for k in &gen.kinds {
             let mut vals = baseline(k, 1);
@@ -551,13 +551,30 @@ pub fn sites(tier: Tier) -> Vec<Site> {
                 }
             }
         }
+        // variable texts also far beyond their specified maximum: the reader takes whatever the frame holds
+        // (compressed frames of 600 and 1020 bytes)
+        for k in &gen.kinds {
+            let vals = baseline(k, 1);
+            let lay = spec::layout(k, &vals);
+            let Some(f) = spec::ref_encode(k, &vals, true) else { continue };
+            for (fi, start, _) in &lay {
+                if matches!(k.fields[*fi].ty, spec::Ty::VarText { .. }) {
+                    for total_len in [600usize, 1020] {
+                        let mut big = f[..*start].to_vec();
+                        big.resize(total_len, b'Z');
+                        big[0] = (total_len / 4) as u8;
+                        targets.push((format!("{} {} oversize {total_len}", k.name, k.fields[*fi].name), true, big, *start, total_len - *start));
+                    }
+                }
+            }
+        }
         let per = (units.len() * prefixes.len()) as u64;
         let total = targets.len() as u64 * per;
         let targets = Arc::new(targets);
         sites.push(Site::new(
             "text-storm",
             total,
-            "every text-bearing field of every kind (variable ones at their maximum length; both modes) filled with {nothing, a, ab, one high byte} + one of 19 units repeated to the end of the field, followed by a sentinel TINY",
+            "every text-bearing field of every kind (variable ones at their maximum length; both modes) (and, for variable texts, compressed frames of 600 and 1020 bytes) filled with {nothing, a, ab, one high byte, ^E, ^J} + one of 22 units repeated to the end of the field, followed by a sentinel TINY",
             move |i, acc| {
                 let (name, compressed, frame, start, len) = &targets[(i / per) as usize];
                 let r = (i % per) as usize;
